@@ -252,7 +252,7 @@ Theorem C18_resolve_no_sign_unchanged :
   forall ev g,
   no_sign (gr_procs g) = true ->
   exists g', resolve_rules ev g = Ok g' /\ group_obs g' = group_obs g
-             /\ spec_resolve ev (gr_procs g) = Some (group_obs g).
+             /\ spec_resolve ev g = Some (group_obs g).
 Proof. exact resolve_no_sign_unchanged. Qed.
 
 (* '@' on a uniform group: exactly spec_at *)
@@ -278,11 +278,19 @@ Proof. exact resolve_hash_refines_spec. Qed.
 (* MODEL REFINES SPEC (resolution of a homogeneous group) *)
 Theorem C18_resolution_refines_spec :
   forall ev g ts,
-  NoDup (instances ev) -> group_consistent g ->
-  spec_resolve ev (gr_procs g) = Some ts ->
+  NoDup (instances ev) ->
+  spec_resolve ev g = Some ts ->
   class_hash_empty_ref ev g = false ->
   exists g', resolve_rules ev g = Ok g' /\ group_obs g' = ts.
 Proof. exact resolution_refines_spec. Qed.
+
+(* a homogeneous group whose processes got different '@' lists: nothing is specified (regression of a false alarm) *)
+Theorem C18_inconsistent_group_unspecified :
+  let ev := mkEnv [10; 11; 12; 13] [(20, 10)] [] in
+  let g := mkGroup [mkG 2 (mkI [] [S_STAR] []); mkG 0 (mkI [10] [] [])] (Some [14; 20]) None in
+  uniform_at (gr_procs g) = Some [S_STAR] /\ spec_resolve ev g = None
+  /\ rmap group_obs (resolve_rules ev g) = Ok [([], [S_STAR], []); ([10], [], [])].
+Proof. exact inconsistent_group_unspecified. Qed.
 
 (* ---------------------------------------------------------------- options *)
 From Sup Require Import Options OptionsProofs.
